@@ -18,6 +18,15 @@ def _attr_const(cx, mod, cls, attr):
             except ValueError:
                 # implicit concatenation of raw strings in parentheses is a Constant already; anything else is unknown
                 raise AnalysisError("C08.R5", "%s.%s is not a literal" % (cls, attr))
+    # a constant kept on the class instead (never assigned through self anywhere in the class)
+    c = mod.cls(cls, "C08.R5")
+    cd = [a for a in c.body if isinstance(a, ast.Assign) and len(a.targets) == 1 and U(a.targets[0]) == attr]
+    writes = [x for x in ast.walk(c) if isinstance(x, ast.Attribute) and isinstance(x.ctx, (ast.Store, ast.Del)) and x.attr == attr]
+    if len(cd) == 1 and not writes:
+        try:
+            return cd[0], literal(cx.repo, cd[0].value)
+        except ValueError:
+            raise AnalysisError("C08.R5", "%s.%s is not a literal" % (cls, attr))
     raise AnalysisError("C08.R5", "no assignment to self.%s in %s.__init__" % (attr, cls))
 
 
